@@ -1134,13 +1134,13 @@ pub fn substring(input_string_value: &Value, start_position_value: &Value, lengt
           };
           if start > 0 {
             let index = (start - 1) as usize;
-            if index < input_string_len && index + count <= input_string_len {
+            if index < input_string_len && count <= input_string_len - index {
               return Value::String(input_string.chars().skip(index).take(count).collect());
             }
           }
           if start < 0 {
             let index = (input_string_len as isize) + start;
-            if index >= 0 && index as usize + count <= input_string_len {
+            if index >= 0 && count <= input_string_len - index as usize {
               return Value::String(input_string.chars().skip(index as usize).take(count).collect());
             }
           }
